@@ -333,3 +333,43 @@ Example C13_entry_points_nonvacuous :
   (exists s, mk_spectrum (map zq [1; 2]%Z) (map zq [5; 6]%Z) UUm VFlam = Ok s).
 Proof. repeat split; try (vm_compute; reflexivity); try (vm_compute; repeat split; reflexivity).
   vm_compute. eexists. reflexivity. Qed.
+
+(* Spectrum.sample(wave, method, fill_value, waveunit) with every argument form: an unknown kind is refused first
+   (NotImplementedError); an empty table, fewer samples than the spline order + 1, or a fill value interp1d cannot
+   broadcast (two-element list / array, longer tuple) give ValueError; otherwise one value per requested wavelength:
+   the fill value (below, above) outside the table's range whatever the kind, the linear interpolant inside for
+   'linear', scipy's spline (unmodelled) inside for the other kinds.  The table is the spectrum converted to the
+   requested unit on a copy. *)
+Theorem C13_sample_call_table :
+  forall (mt : meth) (s : spectrum) (pts : list Qc) (fa : fill_arg) (u : wunit),
+  let s' := conv s u in
+  (mt = MUnknown -> sample_call mt s pts fa u = Err NotImplementedErr) /\
+  (mt <> MUnknown -> (length (wave s') < meth_min_points mt)%nat \/ fa = FBadShape ->
+     sample_call mt s pts fa u = Err ValueError) /\
+  (mt <> MUnknown -> (meth_min_points mt <= length (wave s'))%nat -> forall f, fa = FOk f ->
+     exists vals, sample_call mt s pts fa u = Ok vals /\ length vals = length pts /\
+       forall i, (i < length pts)%nat -> let x := nth i pts 0 in
+         (x < wmin (wave s') -> incr (wave s') -> nth i vals XUnmodelled = XQ (fill_below f)) /\
+         (wmax (wave s') < x -> incr (wave s') -> nth i vals XUnmodelled = XQ (fill_above f)) /\
+         (inrange (wave s') x = true -> mt = MLinear -> nth i vals XUnmodelled = XQ (interp (wave s') (value s') x)) /\
+         (inrange (wave s') x = true -> mt <> MLinear -> nth i vals XUnmodelled = XUnmodelled)).
+Proof. exact sample_call_table. Qed.
+Print Assumptions C13_sample_call_table.
+
+(* for the linear kind and a usable fill value this is the [sample] of C13_sample_pointwise *)
+Theorem C13_sample_call_linear :
+  forall (s : spectrum) (pts : list Qc) (f : fillv) (u : wunit), wave (conv s u) <> [] ->
+  sample_call MLinear s pts (FOk f) u = Ok (map XQ (sample s pts f u)).
+Proof. exact sample_call_linear. Qed.
+Print Assumptions C13_sample_call_linear.
+
+Example C13_sample_call_nonvacuous :
+  sample_call MUnknown exA (map zq [1; 2]%Z) (FOk (FScalar 0)) UNm = Err NotImplementedErr /\
+  sample_call MCubic exOne (map zq [3]%Z) (FOk (FScalar 0)) UNm = Err ValueError /\
+  sample_call MLinear exE (map zq [3]%Z) (FOk (FScalar 0)) UNm = Err ValueError /\
+  sample_call MLinear exA (map zq [3]%Z) FBadShape UNm = Err ValueError /\
+  match sample_call MQuadratic exA [zq 0; zq 2; zq 9] (FOk (FPair (zq 5) (zq 7))) UNm with
+  | Ok vals => vals = [XQ (zq 5); XUnmodelled; XQ (zq 7)] | Err _ => False end /\
+  match sample_call MLinear exA [qq 5 2] (FOk (FScalar 0)) UNm with
+  | Ok vals => map xnum vals = [5]%Z | Err _ => False end.
+Proof. repeat split; vm_compute; reflexivity. Qed.
